@@ -29,7 +29,11 @@ class KernelGuard:
         g = self
 
         def need(name, cond, why):
-            if not cond:
+            try:
+                ok = bool(cond)
+            except Exception:  # noqa: BLE001 - a guard that cannot evaluate never judges
+                return
+            if not ok:
                 g._fail(name, why)
 
         def extract_tim(inarray, outarray, nchans, nsamps, index):
@@ -85,10 +89,23 @@ class KernelGuard:
                  f"samples [{index},{index + n}) of a fold declared {total_nsamps} samples long: sub-integration index would reach {int((index + n - 1) // (total_nsamps / nints)) if n > 0 else 0} of {nints}")
             return g.saved["fold"](inarray, fold_ar, count_ar, delays, maxdelay, tsamp, period, accel, total_nsamps, nsamps, nchans, nbins, nints, nsubs, index)
 
-        for name, fn in list(locals().items()):
-            if callable(fn) and hasattr(K, name) and name not in ("need",):
-                self.saved[name] = getattr(K, name)
-                setattr(K, name, fn)
+        import inspect
+
+        guards = {n: f for n, f in list(locals().items()) if callable(f) and hasattr(K, n) and n not in ("need",)}
+        for name, fn in guards.items():
+            orig = getattr(K, name)
+            self.saved[name] = orig
+            nargs = len(inspect.signature(fn).parameters)
+
+            def wrapper(*a, _fn=fn, _orig=orig, _n=nargs, **kw):
+                # the guard understands the kernel's present signature only; any other call shape
+                # (a refactored kernel) is passed through untouched rather than mis-judged
+                if kw or len(a) != _n:
+                    g.ctx.observations["kernel-guard-skipped-unknown-signature"] += 1
+                    return _orig(*a, **kw)
+                return _fn(*a)
+
+            setattr(K, name, wrapper)
         return self
 
     def __exit__(self, *exc):
